@@ -137,7 +137,8 @@ def choice(R):
     if okc and ys:
         pv = U(cn.ast.targets[0].elts[1])
         a = arg_of(ys[0].ast.value, R.func('events.Connected.__init__'), 'proxy')
-        okc = a is not None and U(a) == pv and rdr.defs_at(ys[0], pv) == {cn}
+        to = rdr.tuple_origin(ys[0], a) if a is not None else None
+        okc = to is not None and to[2] is cn and to[1] == 1
     R.ob('C19.choice', 'Connected reports the proxy', bool(okc and ys), 'Connected(proxy=...) is not the value returned by _connect',
          func=S + '.run', node=(ys[0].ast if ys else None), construct='Connected proxy arg')
 
